@@ -6,7 +6,9 @@
 (* module has a private helper `h`, a private list `hist` and a global `x` *)
 (* (c may be "bare": no globals, no f, only h and pc - a module with       *)
 (* nothing to initialise; b may also define a type T = int, private or pub, which main may import *)
-(* and then uses as `let t: T = 5; println("t", t);`)                      *)
+(* and then uses as `let t: T = 5; println("t", t);`; c may define a       *)
+(* global y = 77 that b and main may import - from c, or main from b, which *)
+(* merely imported it: println("m.y", y) where it is visible)              *)
 (* (main: 10 unless it imports an `x`; b: 20; c: 30; in b and c private    *)
 (* or pub).  b and c have a pub entry `pb` / `pc`; the contested name is   *)
 (* `f`: defined (private or pub) or not in each module, imported here and  *)
@@ -48,6 +50,9 @@ Defined(gr, m, name) ==
       [] name = "pb" -> IF m = "b" THEN "pub" ELSE "none"
       [] name = "pc" -> IF m = "c" THEN "pub" ELSE "none"
       [] name = "T" -> IF m = "b" THEN gr.t ELSE "none"      \* a type (imported as `type T`)
+      \* a global only c defines (77): b may import it, and main may ask b for it - but b does not DEFINE it, importing a
+      \* name does not pass it on
+      [] name = "y" -> IF m = "c" /\ ~gr.cbare THEN gr.y ELSE "none"
       [] OTHER -> "none"
 
 \* the imports module m really has: main always imports the entry points of the modules it uses
@@ -112,7 +117,8 @@ CallLines(gr, m, name, hs, depth) ==
                     r == CallLines(gr, d, "h", hs1, depth + 1) IN
                 [lines |-> own \o r.lines, hist |-> r.hist]
            [] name \in {"pb", "pc"} ->
-                LET own == IF d = "c" /\ gr.cbare THEN << <<"c", "pbare">> >> ELSE << <<d, "p", XVal(Resolve(gr, d, "x")), hs[d]>> >>
+                LET own == (IF d = "c" /\ gr.cbare THEN << <<"c", "pbare">> >> ELSE << <<d, "p", XVal(Resolve(gr, d, "x")), hs[d]>> >>)
+                           \o (IF d = "b" /\ Resolve(gr, "b", "y") # "" THEN << <<"b", "y", 77>> >> ELSE <<>>)
                     r1 == CallLines(gr, d, "f", hs, depth + 1)
                     \* an entry point also calls the other library's entry point if its module imports it
                     \* (so a library may only be reachable - and initialised - through another library)
@@ -128,33 +134,38 @@ MainLines(gr) ==
         r4 == CallLines(gr, "main", "h", r3.hist, 0)
         xl == IF \E it \in Imports(gr, "main") : it[1] = "x" THEN << <<"main", "x", XVal(Resolve(gr, "main", "x"))>> >> ELSE << <<"main", "x", 10>> >>
         r5 == CallLines(gr, "main", "f", r4.hist, 0)
+        yl == IF Resolve(gr, "main", "y") # "" THEN << <<"main", "y", 77>> >> ELSE <<>>
         tl == IF <<"T", "b">> \in gr.imp.main THEN << <<"main", "t", 5>> >> ELSE <<>> IN
-    r1.lines \o r2.lines \o r3.lines \o r4.lines \o xl \o r5.lines \o tl
+    r1.lines \o r2.lines \o r3.lines \o r4.lines \o xl \o yl \o r5.lines \o tl
 
 -----------------------------------------------------------------------------
 \* the graph space is enumerated component-wise (building Graphs as one set is slow) and cut by a code of the components
 VisN(v) == CASE v = "none" -> 0 [] v = "priv" -> 1 [] v = "pub" -> 2
 BN(x) == IF x THEN 1 ELSE 0
 \* (the graph is chosen by an action, not in Init: TLC computes initial states on one thread)
-NoGraph == [f |-> [main |-> "none", b |-> "none", c |-> "none"], x |-> [b |-> "priv", c |-> "priv"], t |-> "none", hasc |-> FALSE, cbare |-> FALSE, mainb |-> TRUE,
+NoGraph == [f |-> [main |-> "none", b |-> "none", c |-> "none"], x |-> [b |-> "priv", c |-> "priv"], t |-> "none", y |-> "none", hasc |-> FALSE, cbare |-> FALSE, mainb |-> TRUE,
             imp |-> [main |-> {}, b |-> {}, c |-> {}]]
 Init == g = NoGraph /\ inited = <<>> /\ hist = [m \in Mods |-> 0] /\ out = <<>> /\ phase = "pick"
 Pick ==
     /\ phase = "pick"
-    /\ \E fm \in {"none", "priv"}, fb \in Vis, fc \in Vis, xb \in {"priv", "pub"}, xc \in {"priv", "pub"}, tb \in Vis, hc \in BOOLEAN, cb \in BOOLEAN, mb \in BOOLEAN :
+    /\ \E fm \in {"none", "priv"}, fb \in Vis, fc \in Vis, xb \in {"priv", "pub"}, xc \in {"priv", "pub"}, tb \in Vis, yc \in Vis, hc \in BOOLEAN, cb \in BOOLEAN, mb \in BOOLEAN :
          \* (a bare c has no globals at all - nothing to initialise -, no f, and nothing but pc to import)
          /\ cb => (hc /\ fc = "none" /\ xc = "priv")
          \* (main leaves b to c only if there is a c)
          /\ ~mb => hc
+         \* (y and its imports are varied in one part of the space only, see YOn)
+         /\ yc # "none" => (fm = "none" /\ tb = "none" /\ xb = "priv" /\ hc /\ ~cb)
          /\ (VisN(fb) + 3 * VisN(fc) + 9 * VisN(tb) + 27 * BN(hc) + 54 * BN(xb = "pub") + 108 * BN(xc = "pub") + 216 * VisN(fm)) % Slices = Slice
-         /\ g' = [NoGraph EXCEPT !.f = [main |-> fm, b |-> fb, c |-> fc], !.x = [b |-> xb, c |-> xc], !.t = tb, !.hasc = hc, !.cbare = cb, !.mainb = mb]
+         /\ g' = [NoGraph EXCEPT !.f = [main |-> fm, b |-> fb, c |-> fc], !.x = [b |-> xb, c |-> xc], !.t = tb, !.y = yc, !.hasc = hc, !.cbare = cb, !.mainb = mb]
     /\ phase' = "pick2" /\ UNCHANGED <<inited, hist, out>>
+YOn(gr) == gr.f.main = "none" /\ gr.t = "none" /\ gr.x.b = "priv" /\ gr.hasc /\ ~gr.cbare
 PickImports ==
     /\ phase = "pick2"
-    /\ \E im \in SUBSET { <<"f", "b">>, <<"x", "b">>, <<"f", "c">>, <<"x", "c">>, <<"h", "b">>, <<"T", "b">> },
+    /\ \E imy \in { {}, {<<"y", "b">>}, {<<"y", "c">>} }, iby \in BOOLEAN, im \in SUBSET { <<"f", "b">>, <<"x", "b">>, <<"f", "c">>, <<"x", "c">>, <<"h", "b">>, <<"T", "b">> },
           ib \in SUBSET { <<"f", "c">>, <<"pc", "c">> },
           ic \in { S \in SUBSET { <<"f", "b">>, <<"f", "main">>, <<"pb", "b">> } : ~({<<"f", "b">>, <<"f", "main">>} \subseteq S) } :
-         g' = [g EXCEPT !.imp = [main |-> im, b |-> ib, c |-> ic]]
+         /\ (imy # {} \/ iby) => YOn(g)
+         /\ g' = [g EXCEPT !.imp = [main |-> im \cup imy, b |-> ib \cup (IF iby THEN {<<"y", "c">>} ELSE {}), c |-> ic]]
     /\ phase' = "init" /\ UNCHANGED <<inited, hist, out>>
 
 \* the host / compiler may visit the modules in any order
@@ -186,11 +197,11 @@ InitExactlyOnceBeforeMain ==
 \* the printed lines do not depend on the order in which the modules were visited: `out` is a function of g
 OrderIndependent == phase = "done" => out = MainLines(g)
 ResolvesToDefiningModule ==
-    Accepted(g) => \A m \in Reachable(g) : Exists(g, m) => \A n \in {"f", "x", "h"} :
+    Accepted(g) => \A m \in Reachable(g) : Exists(g, m) => \A n \in {"f", "x", "h", "y"} :
         LET d == Resolve(g, m, n) IN d # "" => Defined(g, d, n) # "none"
 
 Finished == phase \in {"done", "rejected"}
-Export == Finished => PrintT(<<"CASE", ToJson([g |-> [f |-> g.f, x |-> g.x, t |-> g.t, cbare |-> g.cbare, mainb |-> g.mainb, hasc |-> g.hasc,
+Export == Finished => PrintT(<<"CASE", ToJson([g |-> [f |-> g.f, x |-> g.x, t |-> g.t, y |-> g.y, cbare |-> g.cbare, mainb |-> g.mainb, hasc |-> g.hasc,
                                                       imp |-> [m \in Mods |-> SetToSeq(g.imp[m])]],
                                                accepted |-> Accepted(g), unspecified |-> Unspecified(g), errors |-> SetToSeq(AllErrors(g)),
                                                out |-> IF Accepted(g) /\ ~Unspecified(g) THEN MainLines(g) ELSE <<>>])>>)
